@@ -264,11 +264,18 @@ def _same_shape_partners(P, i, s, count, a):
             continue
         if mode == 0:  # an existing entry with the same shape & dtype
             j = P.pick(s[1 + k], lambda v: is_ft(v) and v.shape == t.shape and v.dtype == t.dtype)
-        if j is None and mode == 1 and isinstance(t, QBytesTensor) and t.axis is None:
-            # companion with EQUAL scale (reaches the quantized cat/stack/lt branches)
-            x = _values(list(t.shape), t.dtype, 1000 + s[1 + k], 1.0) * float(t._scale.abs().to(torch.float64)) * 40
-            extra.append(("like", quantize_activation(x.to(t.dtype), t.qtype, t._scale)))
+        if j is None and mode == 1 and isinstance(t, QBytesTensor):
+            # companion with EQUAL scale (reaches the quantized cat/stack/lt branches), per-tensor or per-axis
+            sc64 = t._scale.abs().to(torch.float64)
+            x = gen.clamp_finite(_values(list(t.shape), t.dtype, 1000 + s[1 + k], 1.0).to(torch.float64) * sc64 * 40, t.dtype)
+            if t.axis is None:
+                extra.append(("like", quantize_activation(x, t.qtype, t._scale)))
+            else:
+                extra.append(("like", SymmetricQuantizer.apply(x, t.qtype, t.axis, t._scale)))
             ops.append(("x", len(extra) - 1))
+            continue
+        if j is None and mode == 0 and s[1 + k] % 3 == 0:
+            ops.append(("p", i))  # the operand itself, twice
             continue
         if j is None:
             extra.append(("fresh", fresh_partner(list(t.shape), t.dtype, s[1 + k] + a, 2000 + s[1 + k])))
@@ -819,7 +826,10 @@ def run_program(case, mode, out=None):
         tag = f"{name}/{k0}"
         inplace = r.get("inplace")
         # ---- float reference on the CURRENT dequantized operands
-        dops = [deq(o) for o in operands]
+        dops = cut(lambda: [deq(o) for o in operands])
+        if isinstance(dops, Raised):
+            stats["skipped"] += 1  # an operand is already broken (reported when it was produced)
+            continue
         if inplace is not None:
             dops[inplace] = dops[inplace].clone()
         ref = cut(f, *dops)
@@ -834,9 +844,19 @@ def run_program(case, mode, out=None):
                 continue
         # ---- snapshot for the frame condition
         before = None
+        tw_before = [t.clone() if isinstance(t, torch.Tensor) else t for t in P.twins] if (mode == "c05" or inplace is not None) else None
+        if inplace is not None:
+            # an in-place op must also be valid on the float twins, which carry the aliasing structure (expanded
+            # destinations, source overlapping the destination ...)
+            twres = cut(f, *[P.twins[i] for i in idxs])
+            if isinstance(twres, Raised):
+                stats["float_invalid"] += 1
+                continue
         if mode == "c05":
-            before = [deq(v).clone() if isinstance(v, torch.Tensor) else v for v in P.vals]
-            tw_before = [t.clone() if isinstance(t, torch.Tensor) else t for t in P.twins]
+            before = cut(lambda: [deq(v).clone() if isinstance(v, torch.Tensor) else v for v in P.vals])
+            if isinstance(before, Raised):
+                stats["skipped"] += 1
+                continue
         info = {}
         if klass == "contract":
             a64 = [d.to(torch.float64) for d in dops]
@@ -893,7 +913,8 @@ def run_program(case, mode, out=None):
                 compare(out, tag, klass, res, ref, info)
             ok_result = len(out.failures) == n0
             # frame condition: entries whose float twin is not changed by the op must keep their dequantized value
-            twres = cut(f, *[P.twins[i] for i in idxs])
+            if inplace is None:
+                twres = cut(f, *[P.twins[i] for i in idxs])
             for j, v in enumerate(P.vals):
                 if not isinstance(v, torch.Tensor):
                     continue
@@ -902,9 +923,16 @@ def run_program(case, mode, out=None):
                     continue
                 now = cut(deq, v)
                 if isinstance(now, Raised) or not isinstance(now, torch.Tensor) or not _teq(now, before[j]):
-                    out.fail(f"{name}/frame/{kind_key(v)}-bystander", f"step {name} on {kinds} changed pool entry {j} ({describe(v)}, made by {P.origin[j]}) that the float program leaves untouched")
+                    dest = operands[inplace] if inplace is not None else None
+                    def _ptr(t):
+                        t = getattr(t, "_data", t) if not isinstance(t, torch.Tensor) or hasattr(t, "_bits") else t
+                        return t.untyped_storage().data_ptr()
+
+                    shared = isq(v) and isq(dest) and (_ptr(v._scale) == _ptr(dest._scale) or _ptr(v._data) == _ptr(dest._data))
+                    who = "bystander-sharing-inner-tensors" if shared else f"{kind_key(v)}-bystander"
+                    out.fail(f"{name}/frame/{who}", f"step {name} on {kinds} changed pool entry {j} ({describe(v)}, made by {P.origin[j]}) that the float program leaves untouched")
                     break
-        else:
+        elif inplace is None:
             twres = cut(f, *[P.twins[i] for i in idxs])
         # ---- add results to the pool
         flat_res = list(res) if isinstance(res, (list, tuple)) else [res]
@@ -917,7 +945,10 @@ def run_program(case, mode, out=None):
                 if isq(x):
                     anyq = True
                     if mode == "c06":
+                        n0 = len(out.failures)
                         O.check_invariant(out, f"{name}/{kinds}", x)
+                        if len(out.failures) != n0:
+                            ok_result = False
                         if r.get("copyop") and isq(operands[0]):
                             move_clause(out, f"{name}/{kinds}", operands[0], x, r.get("dtype_move"))
                 if ok_result and inplace is None:
